@@ -173,6 +173,16 @@ func (s *GenericSigner) Sign(ctx context.Context, desc ocispec.Descriptor, opts 
 	if err := envelope.ValidatePayloadContentType(&envContent.Payload); err != nil {
 		return nil, nil, err
 	}
+	// the envelope library may re-encode the payload before signing it (the
+	// JWS envelope decodes JSON numbers as float64): make sure that the
+	// descriptor that has been signed is the requested one
+	var signedPayload envelope.Payload
+	if err := json.Unmarshal(envContent.Payload.Content, &signedPayload); err != nil {
+		return nil, nil, fmt.Errorf("generated signature carries a payload that is not the requested one: %w", err)
+	}
+	if !isPayloadDescriptorValid(payload.TargetArtifact, signedPayload.TargetArtifact) {
+		return nil, nil, fmt.Errorf("generated signature is over descriptor %+v, which is not the requested descriptor %+v", signedPayload.TargetArtifact, payload.TargetArtifact)
+	}
 	return sig, &envContent.SignerInfo, nil
 }
 
